@@ -52,6 +52,7 @@ pub fn generate(rng: &mut Rng, tier: Tier, stats: &mut GenStats) -> Scenario {
         2 | 3 => LinkMode::Safe,
         _ => LinkMode::All,
     };
+    g.foreign_pct = 15;
     let tree = g.tree(links);
     let model = Model::from_tree(&tree).unwrap();
     let cwd = g.pick_dir(&model, 40);
@@ -361,6 +362,9 @@ pub fn check(sc: &Scenario, env: &mut Env) -> Result<Outcome, HarnessError> {
             out.nontrivial = true;
         }
         walker_probes(w, &mut out);
+        if sc.tree.iter().any(|n| is_foreign(&n.path)) {
+            out.probe("tree:another-file-system-behind-a-link");
+        }
         if !model.is_dir_node(&w.base) {
             out.probe("base:regular-file");
         }
